@@ -91,6 +91,7 @@ SeqsUpTo(S, n) == UNION {[1 .. k -> S] : k \in 0 .. n}
 
 CallsOf(st, op) ==
   CASE op = "add_vertex" -> {K0(op)}
+    [] op = "add_n_vertices" -> {KA(op, 1), KA(op, 2)}
     [] op = "add_edge" -> {K(op, a, b, <<>>, d) : <<a, b, d>> \in
                               {t \in LiveV(st) \X LiveV(st) \X BOOLEAN : t[1] # t[2]}}
     [] op = "add_face_v" -> {KL(op, <<t[1], t[2], t[3]>>) : t \in
